@@ -9,6 +9,7 @@ import io
 import operator
 import os
 import struct
+import sys
 
 import z3
 
@@ -120,6 +121,16 @@ def _byte8(eng, x):
 
 
 def compare(eng, t, a, b):
+    if (is_sym(a) and z3.is_string(a)) or (is_sym(b) and z3.is_string(b)):
+        if t in (ast.Eq, ast.NotEq):
+            if a is None or b is None:
+                return t is ast.NotEq
+            A = a if is_sym(a) else z3.StringVal(a)
+            B = b if is_sym(b) else z3.StringVal(b)
+            return (A == B) if t is ast.Eq else (A != B)
+        if t in (ast.Is, ast.IsNot):
+            return t is ast.IsNot  # a string value is never None
+        raise Unsupported("ordering of symbolic strings")
     if (hasattr(a, "path_code") or hasattr(b, "path_code")) and t in (ast.Eq, ast.NotEq):
         from vf.pysym import pathdom
 
@@ -352,6 +363,11 @@ def getitem(eng, obj, idx):
     if isinstance(obj, (list, tuple)):
         return obj[_index(eng, len(obj), idx)]
     if isinstance(obj, dict):
+        if is_sym(idx) and z3.is_string(idx):
+            for k_ in obj:
+                if isinstance(k_, str) and eng.branch(idx == z3.StringVal(k_)):
+                    return obj[k_]
+            raise ModelRaise("KeyError", ["<symbolic key>"], cls=KeyError)
         if is_sym(idx):
             raise Unsupported("symbolic dict key")
         if isinstance(idx, SBytes):
@@ -795,6 +811,12 @@ def call_method(eng, obj, name, args, kw):
         from vf.pysym import ropes
 
         return ropes.call_method(eng, obj, name, args, kw)
+    if isinstance(obj, re.Pattern) and name in ("match", "fullmatch") and args and is_sym(args[0]):
+        from vf.pysym import rxdom
+
+        return rxdom.pattern_match(eng, obj, args[0], full=(name == "fullmatch"))
+    if obj is sys.stdout or obj is sys.stderr:
+        return None  # printed text is not the subject
     if isinstance(obj, type) and obj is int and name == "from_bytes":
         return from_bytes(eng, args[0], args[1] if len(args) > 1 else kw.get("byteorder", "big"))
     # generic: resolve attribute then call
@@ -965,6 +987,10 @@ def _int(eng, x=0, base=10):
             raise err("ValueError")
     if z3.is_bool(x):
         return eng.toint(x)
+    if is_sym(x) and z3.is_string(x):
+        if eng.branch(z3.Not(z3.InRe(x, z3.Plus(z3.Range(z3.StringVal("0"), z3.StringVal("9")))))):
+            raise err("ValueError")  # only plain decimal digit strings are modelled
+        return z3.StrToInt(x)
     if is_sym(x) and z3.is_real(x):
         from vf.pysym import sfloat
 
